@@ -325,6 +325,7 @@ func (r *c26Run) Main(s *sim.Sim) {
 	if st := cl.State(); st != opcua.Connected {
 		// C25's business; here it only means the subscription check cannot be made
 		s.Probe("not-connected-after-faults")
+		s.Teardown()
 		cl.Close(ctx)
 		return
 	}
@@ -380,6 +381,7 @@ func (r *c26Run) Main(s *sim.Sim) {
 	}
 	s.Probe("subscriptions-alive-after-faults")
 	r.checkAcks(s)
+	s.Teardown()
 	cl.Close(ctx)
 	r.e.cancel()
 }
